@@ -363,12 +363,54 @@ def declarations_supply_what_follows(F, rep, rule="C07.supply-order"):
                         nxt.append(h)
             work = nxt
         blind = [g for g in reach if g.calls_to(BLIND)]
-        walks = [g for g in reach if any(c.callee().endswith("::supplies") for c in g.calls()) and any(c.callee().endswith("::net_dependencies") for c in g.calls())]
+        walks = [g for g in reach if any(c.callee().endswith("::supplies") for c in g.calls())
+                 and any(c.callee().endswith(("::net_dependencies", "::dependencies")) for c in g.calls())]
         ok = not blind and bool(walks)
         rep.ob(rule, "%s: a declaration cancels the dependencies of the statements that follow it only" % mir.short(e.path), "ok" if ok else "violated",
                "" if ok else ("goes through get_net_dependencies (every dependency of the block minus every supply of the block): `g = fn() { h = fn() -> int { return x } / x = 3 / return h }` "
                               "inside a function that has `x` does not capture `x`, and fails with `x is not in scope` once that function has returned"),
                e.span, fn=e.path, key="%s|%s" % (rule, mir.short(e.path)))
+
+    # what one statement is asked for.  (1) its dependencies *without* its own supplies taken off: the initializer of `hits = apply(fn() { modify hits = .. })`
+    # means the `hits` of an enclosing scope (the type checker binds it there: the new name does not exist yet); a statement-level
+    # "dependencies minus supplies" (the trait's default net_dependencies = get_net_dependencies) forgets it, and the closure is built from whatever
+    # the *callers'* frames hold under that name.
+    walkers = []
+    for g in F.crates["compiler"].fns:
+        if g.kind == "Closure" or not g.path.startswith(("compiler::ast::function_body::", "<compiler::ast::function_body::")):
+            continue
+        def on_statement(c):
+            return "Declaration" in c.callee() or any("declaration::Declaration" in x for x in (c.t["func"].get("ga") or []))
+        sup = [c for c in g.calls() if c.callee().endswith("::supplies") and on_statement(c)]
+        dep = [c for c in g.calls() if c.callee().endswith(("::net_dependencies", "::dependencies")) and on_statement(c)]
+        if sup and dep:
+            walkers.append((g, dep))
+    rep.floor(rule + " statement walks (ask each statement for dependencies and supplies)", len(walkers), 1)
+    for g, dep in walkers:
+        bad = []
+        for c in dep:
+            h = F.fn(c.callee())
+            if c.callee().endswith("::net_dependencies") and (h is None or h.calls_to(BLIND)):
+                bad.append(mir.short(c.callee()))
+        rep.ob(rule, "%s: a declaration does not cancel what its own initializer needs" % mir.short(g.path), "violated" if bad else "ok",
+               ("each statement is asked through %s, which is the default `dependencies minus supplies`: in `record = fn() { hits = apply(fn() { modify hits = hits + 1 }) }` "
+                "the closure's `hits` (the enclosing scope's, says the type checker) is cancelled by the declaration it initialises; make_function then binds whatever a "
+                "caller's frame holds under that name - a caller's `const hits` is overwritten" % bad) if bad else "", g.span, fn=g.path,
+               key="%s|own-initializer|%s" % (rule, mir.short(g.path)))
+    # (2) supplies that outlive the statement: the counter of a `from` loop, like anything declared inside an if / while body, is gone when the statement
+    # ends (the type checker refuses `print i` after the loop), so the statement-level supplies of those forms are empty
+    ds = [g for g in F.crates["compiler"].fns if g.path.endswith("declaration::Declaration as compiler::ast::Dependencies>::supplies")]
+    if len(ds) != 1:
+        raise AnchorMissing("<Declaration as Dependencies>::supplies")
+    ds = ds[0]
+    scoped = ("NumberLoop", "WhileLoop", "IfStatement")
+    leaks = sorted({mir.short(c.callee()) for c in ds.calls() if c.callee().endswith("::supplies") and any(("::%s as " % x) in c.callee() for x in scoped)
+                    and F.fn(c.callee()) is not None})
+    rep.ob(rule, "Declaration::supplies: a statement with a scope of its own (from / while / if) supplies nothing to the statements after it",
+           "violated" if leaks else "ok",
+           ("%s is handed on: after `from 0 to 3, hits { }` a closure's `modify hits = ..` (the enclosing scope's `hits`: the counter is out of scope) "
+            "is cancelled by the counter, and the closure is built from a caller's frame" % leaks) if leaks else "", ds.span, fn=ds.path,
+           key=rule + "|scoped-supplies")
 
 
 def fresh_cell_for_new_names_only(F, rep):
